@@ -71,6 +71,7 @@ def run(ctx):
     clean = dict(ev=[R.ev_crypt(R.construct('aes', [bytes(16)]), R.ci('aes', [bytes(16)]), 'enc', bytes(range(16)))])
     def corrupt(t): t['ev'][0]['obs'][3] ^= 1; return t
     ctx.binding_selftest('trace/Trace_Cipher.tla', clean, lambda t: len(t['ev']), corrupt, 'Trace_Cipher: flipped ciphertext bit')
+    ctx.skipped += R.SKIPPED
     ctx.assumptions += ['keys and blocks are sampled by class (zero, ones, walking one, DES weak/semi-weak/parity variants, all-one words, random); components and size/keying configurations are exhaustive',
                         'Serpent keys of 1..32 bytes; the empty key is not exercised', '"rejected" = any exception']
     return ctx.finish('component tables compared exhaustively and end-to-end enc/dec judged by TLC against the TLA+ transcriptions of FIPS 197, FIPS 46-3/SP 800-67, the Serpent submission and Skein 1.3; distinct = (cipher, size, key class, block)')
